@@ -8,7 +8,7 @@ class Leg:
                  checks=(1000, 10000), shards=(1, 16), timeout=(300, 3600), steps=None, env=None,
                  env_quick=None, env_thorough=None, tiers=("quick", "thorough"), fuzz=None, fuzztime=60,
                  app=None, crash_is_violation=True, shrinktime=20, tests=None, replay_attempts=1,
-                 shard_env=None, goarch=None, wrap=None, tags=None):
+                 shard_env=None, goarch=None, wrap=None, tags=None, optional_build=False):
         self.name = name
         self.pkg = pkg
         self.test = test  # -test.run regex
@@ -35,6 +35,7 @@ class Leg:
         self.goarch = goarch              # cross-compile the test binary for this GOARCH (e.g. "386")
         self.wrap = wrap                  # name of a wrapper in check.WRAPPERS (e.g. "no-tzdata")
         self.tags = tags                  # go build tags for the harness test binary
+        self.optional_build = optional_build  # skip the leg (instead of INCONCLUSIVE) if its package does not build
 
 
 PROPS = {}
@@ -59,6 +60,7 @@ PROPS["C14"] = {
     "legs": [
         Leg("grid", "c14", "^TestGrid$", engine="enumerate", rapid=False, shards=(1, 1), tests=["grid"]),
         Leg("random", "c14", "^TestRandom$", checks=(200000, 6000000), shards=(2, 16), tests=["random"]),
+        Leg("huge", "c14", "^TestHuge$", checks=(3000, 60000), shards=(1, 4), tests=["huge"]),
         Leg("parallel-race", "c14", "^TestParallel$", engine="sched", race=True, checks=(500, 8000), shards=(2, 8), tests=["parallel"], replay_attempts=5),
         Leg("grid-386", "c14", "^TestGrid$", engine="enumerate", rapid=False, goarch="386", shards=(1, 1), tests=["grid"]),
         Leg("random-386", "c14", "^TestRandom$", goarch="386", checks=(50000, 1000000), shards=(1, 8), tests=["random"]),
@@ -443,6 +445,7 @@ PROPS["C16"] = {
     "min_evals": {"quick": 300, "thorough": 8000},
     "legs": [
         Leg("run", "c16", "^TestRun$", engine="process", app=["rtcmlogger"], checks=(30, 4000), shards=(16, 16), tests=["run"], replay_attempts=20, shard_env=[{"TZ": "UTC"}, {"TZ": "Europe/London"}, {"TZ": "America/New_York"}, {"TZ": "Asia/Kolkata"}, {"TZ": "Australia/Lord_Howe"}, {"TZ": "Europe/Moscow"}]),
+        Leg("record-stall", "c16b", "^TestRecordStall$", engine="sched", checks=(2, 6), shards=(3, 6), tests=["record-stall"], optional_build=True, replay_attempts=2),
         Leg("run-instrumented", "c16", "^TestRun$", engine="process+sched", app=["rtcmlogger"], instrument=["apps/rtcmlogger/main.go"],
             env={"VERIF_INSTRUMENTED": "1"}, checks=(8, 1500), shards=(16, 16), tests=["run"], replay_attempts=20),
     ],
@@ -466,6 +469,7 @@ PROPS["C19"] = {
     "legs": [
         Leg("report", "c19", "^TestReport$", checks=(2000, 100000), shards=(2, 16), tests=["report"]),
         Leg("long-idle", "c19", "^TestLongIdle$", engine="process", app=["proxy"], checks=(1, 2), shards=(2, 4), tests=["long-idle"], replay_attempts=2),
+        Leg("hangup", "c19", "^TestHangup$", engine="process", app=["proxy"], checks=(4, 40), shards=(4, 8), tests=["hangup"], replay_attempts=3),
         Leg("relay", "c19", "^TestRelay$", engine="process", app=["proxy"], checks=(40, 5000), shards=(8, 16), tests=["relay"], replay_attempts=3),
     ],
 }
